@@ -16,5 +16,6 @@ func controlsC04() []Control {
 		{Name: "RotatePositions without the initialised test", Expect: "R3", Mutate: replaceIn("(*seatManager).RotatePositions", "if !sm.IsInit {", "if false {", 0)},
 		{Name: "heads-up flag read after the seats moved", Expect: "R2", Mutate: replaceIn("(*seatManager).rotatePositions", "if previousRoundIsHU {", "_ = previousRoundIsHU\n\t\t\tif sm.IsHU() {", 0)},
 		{Name: "active count includes waiting players", Expect: "R6", Mutate: replaceIn("(*seatManager).getActivePlayerCount", "seatPlayer != nil && seatPlayer.Active()", "seatPlayer != nil && seatPlayer.IsIn", 0)},
+		{Name: "wrap-around test compares the unreduced counter", Expect: "R1", Mutate: replaceIn("(*seatManager).isBetweenDealerBB", "if i%sm.MaxSeat == targetSeatID {", "if i == targetSeatID {", 0)},
 	}
 }
